@@ -16,9 +16,12 @@ pub mod utc;
 pub use utc::*;
 
 pub(super) fn fixed_timezone(offset: &str) -> String {
-    let gmt_offset = offset[2..offset.find(':').unwrap_or(3)].to_string();
+    // The hours of `+hh:mm`, without the leading zero
+    let gmt_offset = offset[1..offset.find(':').unwrap_or(3)]
+        .trim_start_matches('0')
+        .to_string();
 
-    if gmt_offset == "0" {
+    if gmt_offset.is_empty() {
         return "UTC".into();
     }
     let gmt_sign = offset[0..1].to_string();
